@@ -17,8 +17,9 @@ import CocoVerif.Gen.Grammar
 import CocoVerif.Gen.FrontTables
 import CocoVerif.Model.Front
 import CocoVerif.Model.AstPrint
+import CocoVerif.Model.Tool
 
-open CocoVerif.Model
+open CocoVerif.Model CocoVerif.Model.Tool
 
 def hexVal (c : Char) : Option Nat :=
   if '0' ≤ c && c ≤ '9' then some (c.toNat - 48)
@@ -273,39 +274,6 @@ def handleParse (args : List String) : String :=
       | .incomplete k => s!"incomplete {k}"
       | .outOfFuel => "fuel"
   | _ => "bad-op"
-
-def frontEnv (cps : List Nat) (floats : List (String × Option String)) : Front.Env :=
-  { inp := cps.toArray
-    floatRepr := fun t => match floats.find? (·.1 == t) with | some kv => kv.2 | none => none
-    functions := CocoVerif.Gen.FrontTables.functions
-    str2Functions := CocoVerif.Gen.FrontTables.str2Functions
-    str3Functions := CocoVerif.Gen.FrontTables.str3Functions
-    strNumFunctions := CocoVerif.Gen.FrontTables.strNumFunctions
-    numStrFunctions := CocoVerif.Gen.FrontTables.numStrFunctions
-    statements2 := CocoVerif.Gen.FrontTables.statements2
-    statements3 := CocoVerif.Gen.FrontTables.statements3
-    functionsToStatements := CocoVerif.Gen.FrontTables.functionsToStatements
-    functionsToStatements2 := CocoVerif.Gen.FrontTables.functionsToStatements2
-    numStrFunctionsToStatements := CocoVerif.Gen.FrontTables.numStrFunctionsToStatements
-    strFunctionsToStatements := CocoVerif.Gen.FrontTables.strFunctionsToStatements
-    singleKeywordStatements := CocoVerif.Gen.FrontTables.singleKeywordStatements
-    visitMethods := CocoVerif.Gen.FrontTables.visitMethods }
-
-/-- text -> parse tree -> object graph, printed like the dump of the real one -/
-def frontProg (text : String) (floatTable : String) : Except String Prog :=
-  let cps := text.toList.map Char.toNat
-  let floats := (floatTable.splitOn "\n").filterMap (fun l => match l.splitOn "\t" with
-    | [t, r] => some (t, if r == "!" then none else some r)
-    | _ => none)
-  match Peg.parse CocoVerif.Gen.Grammar.rules CocoVerif.Gen.Grammar.start cps (cps.length * 64 + 100000) with
-  | .ok tree =>
-      (match Front.visitTree (frontEnv cps floats) tree with
-       | .ok (.prog p) => .ok p
-       | .ok _ => .error "raise not-a-program"
-       | .error k => .error ("raise " ++ k))
-  | .noMatch => .error "nomatch"
-  | .incomplete k => .error s!"incomplete {k}"
-  | .outOfFuel => .error "fuel"
 
 def handleFront (args : List String) : String :=
   match args with
